@@ -172,6 +172,7 @@ class FileProxy:
         object.__setattr__(self, "_rel", rel)
         object.__setattr__(self, "_writing", writing)
         object.__setattr__(self, "_closed_seen", False)
+        seam.open_proxies.append(self)
 
     # --- faultable operations
     def write(self, data):
@@ -224,6 +225,10 @@ class FileProxy:
         try:
             seam.fdpaths.pop(self._f.fileno(), None)
         except Exception:
+            pass
+        try:
+            seam.open_proxies.remove(self)
+        except ValueError:
             pass
         return self._f.close()
 
@@ -284,6 +289,7 @@ class Seams:
         self.faults_fired = []
         self.fs_faults_enabled = True
         self.dead = False
+        self.open_proxies = []
         # virtual clock state
         self._epoch = 1.0e9 + self.d.uniform("clock:epoch", 0, 1.0e9)
         self._mono = self.d.uniform("clock:mono0", 0, 1.0e6)
@@ -332,8 +338,28 @@ class Seams:
         if f is not None and f.get("kind") == "kill":
             self.fired(f, kind, rel)
             self.dead = True
+            self.sever_open_files()
             raise ProcessKilled(f"ekosim: process killed at {kind} {rel}")
         return f
+
+    def sever_open_files(self):
+        """A killed process takes its user-space buffers with it.  In this simulation
+        the file objects of the dead session live on until they are garbage collected
+        and would then flush into files a later session may have re-created: point
+        their descriptors at /dev/null instead."""
+        try:
+            null = ORIG["open"](os.devnull, os.O_WRONLY)
+        except OSError:
+            return
+        try:
+            for p in list(self.open_proxies):
+                try:
+                    os.dup2(null, p._f.fileno())
+                except Exception:
+                    pass
+            self.open_proxies.clear()
+        finally:
+            ORIG["close"](null)
 
     def fired(self, fault, kind, rel):
         rec = dict(fault)
